@@ -3,6 +3,9 @@ encode and decode types.
 
 """
 
+import hashlib
+import pickle
+
 try:
     import diskcache
     has_diskcache = True
@@ -271,17 +274,42 @@ def _compile_files_cache(filenames,
     key.append(repr((choices, encoding, bool(numeric_enums))).encode('utf-8'))
     key = b''.join(key)
     cache = diskcache.Cache(cache_dir)
+    compiled = _cache_load(cache, key)
 
-    try:
-        return cache[key]
-    except KeyError:
+    if compiled is None:
         compiled = compile_dict(parse_files(filenames, encoding),
                                 codec,
                                 any_defined_by_choices,
                                 numeric_enums)
-        cache[key] = compiled
+        data = pickle.dumps(compiled)
+        cache[key] = hashlib.sha256(key + data).digest() + data
 
-        return compiled
+    return compiled
+
+
+def _cache_load(cache, key):
+    """Returns the specification stored for given key, or None if there
+    is none. The specification is stored pickled, prefixed with a
+    checksum over the key and the pickled data, as neither the cache
+    nor pickle detects a damaged cache file. An entry that fails the
+    check is ignored (and then overwritten).
+
+    """
+
+    try:
+        value = cache[key]
+    except KeyError:
+        return None
+
+    if not isinstance(value, bytes):
+        return None
+
+    checksum, data = value[:32], value[32:]
+
+    if hashlib.sha256(key + data).digest() != checksum:
+        return None
+
+    return pickle.loads(data)
 
 
 def compile_dict(specification,
